@@ -60,6 +60,9 @@ pub fn packet_kinds() -> Vec<(&'static str, Vec<u8>)> {
         ("clienthello-part2", c2s(ACK | PSH, 1051, &hello[50..], None, false)),
         ("fin-rst", c2s(FIN | RST, 1001, &[], None, false)),
         ("no-flags", c2s(0, 1001, b"x", None, false)),
+        // handshake segments that carry data (TCP Fast Open style): the start of a ClientHello that continues in the next segment
+        ("syn-with-partial-clienthello", c2s(SYN, 1000, &hello[..60], Some(100_000), true)),
+        ("synack-with-partial-clienthello", s2c(SYN | ACK, 5000, &hello[..60], Some(7_000_000), true)),
         ("fragment", pkt::build(&frag)),
         // datagrams with the more-fragments bit / a fragment offset that carry a complete ClientHello or request: the TCP
         // analyzer refuses them, the HTTP and TLS analyzers do not
@@ -311,7 +314,7 @@ pub fn run(thorough: bool) -> Outcome {
     });
     Outcome {
         report: rep,
-        rule: "every trace of <= 4 packets (5 thorough) over 16 packet kinds (SYN/SYN+ACK/ACK with timestamps, HTTP request, HTTP response, ClientHello whole and in two parts, FIN+RST, no flags, IPv4 fragment, UDP, truncated frame, Ethernet-framed IPv6 SYN) x 16 switch combinations x with/without database, unified analyzer vs stand-alone TCP / HTTP / stateless TLS processors in lock step under the injected clock; distinct = distinct unified outcomes".into(),
+        rule: "every trace of <= 4 packets (5 thorough) over 18 packet kinds (SYN/SYN+ACK/ACK with timestamps, HTTP request, HTTP response, ClientHello whole and in two parts, FIN+RST, no flags, IPv4 fragment, UDP, truncated frame, Ethernet-framed IPv6 SYN) x 16 switch combinations x with/without database, unified analyzer vs stand-alone TCP / HTTP / stateless TLS processors in lock step under the injected clock; distinct = distinct unified outcomes".into(),
         exhaustive: true,
         bounds: json!({"traces": traces.len(), "configurations": cfgs.len(), "max_depth": depth}),
     }
